@@ -428,11 +428,14 @@ func Run[C any](t *testing.T, spec Spec[C]) {
 			cnt.mu.Unlock()
 			if _, hang := err.(ErrHang); hang {
 				// the stuck goroutine cannot be reclaimed: report and leave.
-				cnt.flush(start)
 				verdict := "VERIF-FAIL"
 				if spec.NoWatchdogViolation {
 					verdict = "VERIF-INCONCLUSIVE"
+					cnt.mu.Lock()
+					cnt.frag.Failed = false // inconclusive, not a violation
+					cnt.mu.Unlock()
 				}
+				cnt.flush(start)
 				fmt.Printf("%s property=%s sub=%s replay=%s :: %v\n", verdict, spec.Property, spec.Name, p, err)
 				os.Stdout.Sync()
 				os.Exit(7)
